@@ -4,6 +4,7 @@
 // headers: `std` is #defined to a namespace that re-exports all of std but declares vector as the
 // igris::vector alias compat/std/vector declares. Every header they include is included beforehand.
 #include "c02_flat.hpp"
+#include "c02_flat_large.hpp"
 #include "c02_stdref.hpp"
 #include "tracked.hpp"
 #include <algorithm>
@@ -39,6 +40,8 @@ namespace
         std::string mn = "flat_map_on_igris_vector" + suffix, sn = "flat_set_on_igris_vector" + suffix;
         mc::add_bfs(mn, [mn] { return std::unique_ptr<mc::Model>(new c02::MapModel<Map, c02::StdMapRefT<Cmp>, Cmp>(mn, mc::thorough() ? 3 : 2, 3, true)); });
         mc::add_bfs(sn, [sn] { return std::unique_ptr<mc::Model>(new c02::SetModel<Set, c02::StdSetRefT<Cmp>, true, Cmp>(sn, mc::thorough() ? 4 : 3)); });
+        mc::add_check(mn + "_large", [mn] { c02::large_map_body<Map, c02::StdMapRefT<Cmp>, Cmp>(mn); });
+        mc::add_check(sn + "_large", [sn] { c02::large_set_body<Set, c02::StdSetRefT<Cmp>, Cmp>(sn); });
     }
 }
 
